@@ -413,6 +413,11 @@ func runCheck(prop, tier, only string, jobs, seed int, noReplay bool, dump strin
 					hs.WorstSecs = ob.Secs
 				}
 			case "sat":
+				if ob.Kind == "lemma" {
+					// a lemma is proved from a reduced context: a model only says the context was too weak
+					ev.Coverage.Undecided = append(ev.Coverage.Undecided, fmt.Sprintf("%s[%s] lemma not provable from the selected facts: %s", r.t.harness, r.t.caseStr(), ob.Msg))
+					continue
+				}
 				ev.Coverage.SatObligations++
 				key := ob.Harness + "|" + ob.Msg
 				if ob.Kind == "nodeadlock" {
